@@ -36,11 +36,13 @@ EVS = ["train_start", "epoch_start", "batch_start", "batch_end", "epoch_end", "t
 
 def configs(tier, seed):
     rng = np_rng(ID, seed, "configs")
-    n = 16 if tier == "quick" else 1200
+    n = 24 if tier == "quick" else 1200
     out = []
     for i in range(n):
         kind = gen.KINDS[i % 3]
         start = int(rng.integers(1, 4))
+        if i % 8 == 5:
+            start = [0, -1][(i // 8) % 2]  # epoch numbers are just integers: a range may start at 0 or below
         span = int(rng.integers(-1, 3)) if i % 4 else -1  # -1: empty range
         epochs = start + span
         nb = int(rng.integers(1, 4 if kind != "mixed" else 3))
